@@ -1,7 +1,7 @@
 """System-call level legs built on trace.py: skeleton correspondence, confinement, kill sweeps,
 errno injection.  Each leg returns a dict {failures, disagreements, evaluations, distinct_nontrivial,
 samples, ...} that bin/check merges into the evidence."""
-import re, os, re, shutil, hashlib, json, itertools
+import re, os, re, shutil, hashlib, json, itertools, time
 from concurrent.futures import ThreadPoolExecutor
 from . import common as C
 from . import engine as E
@@ -304,7 +304,18 @@ def leg_kill_sweep(cases, flavour, max_points=40, jobs=8):
 
 def kill_cases(r, n):
     cases = []
-    for i in range(n):
+    # always present: a keyed write (async, sync) of bytes that another key already holds, and a re-write
+    # of the key's own unchanged value - publication over an existing content file, at every kill point
+    for vf, own in (("a", False), ("s", False), ("a", True)):
+        key = b"kshared"
+        shared = ("sha256", b"other value")
+        setup = [w_oneshot("s", "sha256", b"other", b"other value")]
+        old = shared if own else None
+        if own:
+            setup.append(w_oneshot("s", "sha256", key, shared[1]))
+        cases.append({"setup": setup, "victim": w_oneshot(vf, "sha256", key, shared[1]), "key": key, "old": old,
+                      "new": shared, "others": {b"other": shared}})
+    for i in range(max(0, n - 3)):
         key = r.pick([b"k", "ключ-é".encode(), b"tab\tkey", b"key with spaces"])
         algo = r.pick(L.ALGOS)
         old = (r.pick(L.ALGOS), b"old value " + bytes([i])) if r.chance(0.6) else None
@@ -634,23 +645,36 @@ def leg_concurrent(r, rounds, flavours, procs=4, ops_per_proc=40):
                 else:
                     ops.append("list c0")
             plans.append(ops)
+        # ops from a file, results to a file: no pipe can fill up and stall a process (or this one), and all
+        # processes start at (nearly) the same moment
         ps = []
         for pi, ops in enumerate(plans):
             fl = flavours[pi % len(flavours)]
-            p = subprocess.Popen([C.drive_bin(fl), scratch], stdin=subprocess.PIPE, stdout=subprocess.PIPE,
-                                 stderr=subprocess.DEVNULL, env=dict(os.environ, DRIVE_REUSE="1"))
-            ps.append((p, ops, fl))
-        for p, ops, fl in ps:
-            p.stdin.write(("\n".join(ops) + "\n").encode())
-            p.stdin.close()
+            fin = os.path.join(scratch, f".in{pi}"); fout = os.path.join(scratch, f".out{pi}")
+            with open(fin, "wb") as fh:
+                fh.write(("\n".join(ops) + "\n").encode())
+            ps.append((fl, ops, fin, fout))
+        procs_ = []
+        for fl, ops, fin, fout in ps:
+            procs_.append(subprocess.Popen([C.drive_bin(fl), scratch], stdin=open(fin, "rb"), stdout=open(fout, "wb"),
+                                           stderr=subprocess.DEVNULL, env=dict(os.environ, DRIVE_REUSE="1")))
         outs = []
-        for p, ops, fl in ps:
+        deadline = time.time() + 600
+        for p_, (fl, ops, fin, fout) in zip(procs_, ps):
             try:
-                out = p.stdout.read().decode(errors="replace").splitlines()
-                p.wait(timeout=120)
+                p_.wait(timeout=max(1, deadline - time.time()))
+                out = open(fout, "rb").read().decode(errors="replace").splitlines()
             except Exception:
-                out = ["hang"]
+                p_.kill()
+                out = open(fout, "rb").read().decode(errors="replace").splitlines() + ["hang"]
             outs.append(out)
+        for fl, ops, fin, fout in ps:
+            for f_ in (fin, fout):
+                try:
+                    os.unlink(f_)
+                except OSError:
+                    pass
+        ps = [(None, ops, fl) for fl, ops, fin, fout in ps]
         valset = {v for v in values}
         wrote = {}            # key -> set of (algo, value) successfully written
         for (p, ops, fl), out in zip(ps, outs):
